@@ -234,7 +234,9 @@ class Sess:
         """empty server, three new connections (database 0, no transaction), empty model"""
         for c in self.cl.values():
             c.close()
-        if not self.srv.alive():
+        if not self.srv.alive() or getattr(self, "blocked", None):
+            # a client left blocked by an aborted history stays in the server's registry (a closed blocked connection is
+            # not noticed: C13's subject) and would swallow a later push: start from a clean server
             self.restart_server()
         r = self.ctl.cmd("FLUSHALL")
         if r != ("s", b"OK"):
@@ -320,6 +322,10 @@ class Sess:
         if name == "EXEC" and self.multi[c] is not None:
             return list(self.multi[c])
         return name
+
+    @staticmethod
+    def names_of_step(step):
+        return list(step["queue"]) if step.get("name") == "EXEC" and step.get("in_multi") else step.get("name", "")
 
     def request(self, c, op):
         """returns a step record; updates the mirrors. op: plain or script."""
@@ -669,7 +675,7 @@ class Runner:
         rep = self.rep
         rep.evaluations += 1
         op = step["op"]
-        path = "pipe" if op["k"] == "pipe" else ("exec" if step.get("name") == "EXEC" and step["in_multi"] else
+        path = "pipe" if op["k"] == "pipe" else "blocked-check" if op["k"] == "notwoken" else ("exec" if step.get("name") == "EXEC" and step["in_multi"] else
                                                   ("queued" if step["in_multi"] else ("evalsha" if op["k"] == "script" and op["sha"] else
                                                                                      ("eval" if op["k"] == "script" else "direct"))))
         code = step.get("code", "")
@@ -761,6 +767,24 @@ class Runner:
         if foreign:
             out.update({"isolation": True, "wrote": foreign,
                         "why": "databases %s differ from the model although the request ran with database(s) %s" % (foreign, sorted(used))})
+        if out["isolation"] and not step.get("died"):
+            # judged against the code variant so far; the judge is the Spec: replay the history on the switch-free machine
+            try:
+                spec = lean_driver(FAMILY)
+                try:
+                    spec.ask("switches evalshaDb0=0 scriptDbCmdsDb0=0 execSelectNoop=0")
+                    last = None
+                    for st in s.steps:
+                        if st.get("line"):
+                            last = spec.ask(st["line"])
+                    ds = (spec.ask("dumpall %d" % s.now()) or "").split(" || ")
+                finally:
+                    spec.close()
+                if ds == di and last and step.get("line") and same_out(s.names_of_step(step), parse_tree(step["impl"]), parse_tree(last.split(" # ")[0])):
+                    out.update({"isolation": False, "follows_spec": True,
+                                "why": "the implementation follows the Spec (switch-free machine) where the code variant deviates: the model switches are stale"})
+            except (InternalError, OSError, ValueError):
+                pass
         if step.get("served", ".") != step.get("delivered", "."):
             out.update({"isolation": True, "why": "a blocked client was not served by a push in its own database (or served something else): model %s, got %s"
                         % (step.get("served"), step.get("delivered"))})
@@ -993,8 +1017,8 @@ def main(tier, seed):
             if name.startswith("clean") and run.dev_steps != dev_before:
                 run.disagreements.append({"family": FAMILY, "ops": ops, "why": "clean corpus history %s deviates from the Spec" % name})
         corpus_known = set(run.known_seen)
-        n_hist = 260 if tier == "quick" else 6000
-        budget = 55 if tier == "quick" else 780
+        n_hist = 600 if tier == "quick" else 12000
+        budget = 40 if tier == "quick" else 600
         for h in range(n_hist):
             if run.new_failures or len(run.disagreements) > 3 or time.time() - t_start > budget:
                 break
